@@ -364,9 +364,9 @@ class Prop(fw.PropBase):
             for fn in sorted(os.listdir(d)):
                 if fn.endswith('.json'):
                     corpus.append(json.load(open(os.path.join(d, fn)))['ops'])
-        rnd = [self.gen_case() for _ in range(260 if quick else 4000)]
-        err = [self.gen_error_case() for _ in range(40 if quick else 400)]
-        exh = self.exhaustive_cases(3, False) if quick else self.exhaustive_cases(4, False) + self.exhaustive_cases(3, True)
+        rnd = [self.gen_case() for _ in range(260 if quick else 10000)]
+        err = [self.gen_error_case() for _ in range(40 if quick else 1000)]
+        exh = self.exhaustive_cases(3, False) if quick else self.exhaustive_cases(5, False) + self.exhaustive_cases(4, True)
         lng = [self.long_case() for _ in range(1 if quick else 6)]
         self.groups = {'corpus': len(corpus), 'random': len(rnd), 'error_paths': len(err), 'exhaustive': len(exh), 'lru_bound': len(lng)}
         return corpus + rnd + err + exh + lng
@@ -468,8 +468,9 @@ class Prop(fw.PropBase):
             'precondition_hit_rate': round(sum(pre) / len(pre), 4),
             'pysam_block_contract_violations': len(pysam_bad),
             'implementation_file': self.impl_file,
-            'exhaustive': 'every (first feature; second round of 1%s features) over coordinates 0..%d, all points and ranges asked '
-                          'before and after the second round' % ('' if self.tier == 'quick' else ' (0..3) or 1-2 (0..2)', 2 if self.tier == 'quick' else 3),
+            'exhaustive': False,
+            'exhaustive_small_scope': 'every (first feature; second round of 1%s features) over coordinates 0..%d, all points and ranges asked '
+                          'before and after the second round' % ('' if self.tier == 'quick' else ' (0..4) or 1-2 (0..3)', 2 if self.tier == 'quick' else 4),
             'samples': [{'history': c[:14], 'impl': r[:14]} for c, r in list(zip(cases, impl))[self.groups['corpus']:self.groups['corpus'] + 2]],
         })
         if pysam_bad:
@@ -546,7 +547,7 @@ class Prop(fw.PropBase):
                             break
                     same += ok3
                 self.notes.append('%d of the %d disagreeing histories are reproduced answer by answer by the model of the '
-                                  'unrepaired code (cfg_head: no cache clear D19, no re-index in range/read lookups D31, '
+                                  'unrepaired code (cfg_head: no cache clear D19, no re-index in range/read lookups D32, '
                                   'inclusive block end D20)' % (same, len(bad)))
             except Exception as e:
                 self.notes.append('cfg_head diagnosis failed: %r' % (e,))
